@@ -133,8 +133,8 @@ def judge_array(cfg, X):
     return fails
 
 
-def call_generate(cfg):
-    g = gen_cls()()
+def call_generate(cfg, g=None):
+    g = g if g is not None else gen_cls()()
     kw = {k: cfg[k] for k in ('n_features', 'n_samples', 'cardinality', 'ensure_rep', 'random_values', 'low', 'high', 'k', 'seed') if k in cfg}
     st = cfg.get('structure')
     if st is not None:
@@ -247,6 +247,18 @@ def _grid_job(job):
             ok2, X2 = safe(call_generate, c)
             if not ok2 or not np.array_equal(X, X2):
                 st.violation({'kind': 'grid', 'cfg': c}, f'same seed and arguments gave a different data set ({c})', {'kind': 'not_reproducible'})
+            # non-initial states: the same generator instance called again (after other use of the global random state, and after another seed)
+            inst = gen_cls()()
+            seq = []
+            for step in range(3):
+                okk, Xk = safe(call_generate, c, inst)
+                seq.append(Xk if okk else None)
+                np.random.random(3)
+                if step == 1:
+                    safe(call_generate, dict(c, seed=seed + 1), inst)
+            if any(x is None or not np.array_equal(x, X) for x in seq):
+                st.violation({'kind': 'grid', 'cfg': c, 'same_instance': True}, f'repeated generate_data calls on one generator instance with the same seed and arguments differ from the first data set ({c})',
+                             {'kind': 'not_reproducible_same_instance'})
             arrays.append(X.tobytes())
         if cfg['n_samples'] >= 5 and cfg['cardinality'] >= 3 and len(seeds) >= 4 and len(set(arrays)) == 1 and not cfg.get('structure'):
             st.violation({'kind': 'grid', 'cfg': cfg}, f'all {len(seeds)} seeds give the same data set ({cfg})', {'kind': 'seed_ignored'})
